@@ -339,4 +339,82 @@ impl crate::ops::StrictOps for B {
         let a = strict::hypergraph::arrow::HypergraphArrow { source: build_hyper(g), target: build_hyper(h), w: ff(w.0, w.1), x: ff(x.0, x.1) };
         pan(catch(|| (a.is_monomorphism(), a.is_convex_subgraph())))
     }
+
+    fn functor_apply(f: &POpen<u8, u8>, tf: crate::tf::TF) -> Res<POpen<u8, u8>> {
+        let f = build_open(f);
+        let fun = TestFunctor(tf);
+        dec(catch(|| strict::functor::Functor::map_arrow(&fun, &f)))
+    }
+    fn identity_functor(f: &POpen<u8, u8>) -> Res<POpen<u8, u8>> {
+        let f = build_open(f);
+        dec(catch(|| <strict::functor::identity::Identity as strict::functor::Functor<K, u8, u8, u8, u8>>::map_arrow(&strict::functor::identity::Identity, &f)))
+    }
+
+    fn optic_apply(f: &POpen<u8, u8>, o: std::sync::Arc<dyn crate::tf::PlainOptic>) -> Res<(POpen<u8, u8>, POpen<u8, u8>)> {
+        let f = build_open(f);
+        let r = catch(|| {
+            let oc = o.clone();
+            let optic = strict::functor::optic::Optic::new(
+                HalfOptic { o: o.clone(), forward: true },
+                HalfOptic { o: o.clone(), forward: false },
+                Box::new(move |ops: &Operations<K, u8, u8>| seg_sf(&decode_operations(ops).iter().map(|(x, _, _)| oc.residual(*x)).collect::<Vec<_>>())),
+            );
+            let c = strict::functor::Functor::map_arrow(&optic, &f);
+            let d = optic.adapt(&c, &f.source(), &f.target());
+            (c, d)
+        });
+        match r {
+            Err(p) => Err(Fail::Panic(p)),
+            Ok((c, d)) => Ok((decode_open(&c).map_err(Fail::Malformed)?, decode_open(&d).map_err(Fail::Malformed)?)),
+        }
+    }
+}
+
+/// the forward or the reverse half of a plain optic as a strict functor on this backend
+pub struct HalfOptic {
+    pub o: std::sync::Arc<dyn crate::tf::PlainOptic>,
+    pub forward: bool,
+}
+
+impl strict::functor::Functor<K, u8, u8, u8, u8> for HalfOptic {
+    fn map_object(&self, a: &SF<u8>) -> IC<SF<u8>> {
+        seg_sf(&a.0 .0.iter().map(|&l| if self.forward { self.o.fobj(l) } else { self.o.robj(l) }).collect::<Vec<_>>())
+    }
+    fn map_operations(&self, ops: Operations<K, u8, u8>) -> SOpen<u8, u8> {
+        let mut acc = POpen::<u8, u8>::empty();
+        for (x, a, b) in decode_operations(&ops) {
+            acc = acc.tensor(&if self.forward { self.o.fwd(x, &a, &b) } else { self.o.rev(x, &a, &b) });
+        }
+        build_open(&acc)
+    }
+    fn map_arrow(&self, f: &SOpen<u8, u8>) -> SOpen<u8, u8> {
+        strict::functor::define_map_arrow(self, f)
+    }
+}
+
+/// a test functor as an implementation of the strict `Functor` trait on this backend
+pub struct TestFunctor(pub crate::tf::TF);
+
+pub fn decode_operations<O: Lab, A: Lab>(ops: &Operations<K, O, A>) -> Vec<(A, Vec<O>, Vec<O>)> {
+    let a = decode_seg_sf(&ops.a, "operations.a").expect("operations.a malformed");
+    let b = decode_seg_sf(&ops.b, "operations.b").expect("operations.b malformed");
+    let x: Vec<A> = ops.x.0 .0.clone();
+    assert!(x.len() == a.len() && x.len() == b.len(), "operation batch with unequal counts");
+    x.into_iter().zip(a.into_iter().zip(b.into_iter())).map(|(x, (a, b))| (x, a, b)).collect()
+}
+
+impl strict::functor::Functor<K, u8, u8, u8, u8> for TestFunctor {
+    fn map_object(&self, a: &SF<u8>) -> IC<SF<u8>> {
+        seg_sf(&a.0 .0.iter().map(|&l| self.0.obj(l)).collect::<Vec<_>>())
+    }
+    fn map_operations(&self, ops: Operations<K, u8, u8>) -> SOpen<u8, u8> {
+        let mut acc = POpen::<u8, u8>::empty();
+        for (x, a, b) in decode_operations(&ops) {
+            acc = acc.tensor(&self.0.image_strict(x, &a, &b));
+        }
+        build_open(&acc)
+    }
+    fn map_arrow(&self, f: &SOpen<u8, u8>) -> SOpen<u8, u8> {
+        strict::functor::define_map_arrow(self, f)
+    }
 }
